@@ -366,6 +366,13 @@ def run_config(ctx, rep, cfg):
             # R2
             inits = pair_of.get(f.key, [])
             ctype = Aw.segs[-1].ty if Aw is not None else None
+            if not inits or not any(alloc_sites(prog, an, ini) for ini in inits):
+                # a release helper whose parameter is the context itself: pair it with whoever in this unit
+                # allocates an object of that type
+                from .common import handle_type
+                want = ctype or handle_type(f)
+                inits = [g2 for g2 in prog.defined() if g2.unit == f.unit and
+                         any(alloc_object_type(g2, ci) == want for (ci, rq, ex) in alloc_sites(prog, an, g2))] if want else []
             req = None
             ainfo = []
             for ini in inits:
@@ -406,8 +413,27 @@ def run_r5(ctx, rep, cfg, expected):
     for (unit, name), wl in sorted(expected.items()):
         f = prog.funcs.get((unit, name))
         if f is None or f.decl:
-            # inlined away: look for the free in callers is out of scope; vtable targets are address-taken
-            rep.inconclusive("C17.R5", "src/%s.c:%s" % (unit, name), "", "function not present in the optimised IR", cfg=cn)
+            # a static release helper inlined away at -O3: its wipe and free are in its callers
+            o0p = ctx.prog(cfg)
+            callers = [g for g in o0p.defined() if g.unit == unit and any(c["callee"][1] == name for c in direct_calls(g))]
+            done = False
+            for g in callers:
+                sg = prog.funcs.get((g.unit, g.name))
+                if sg is None or sg.decl:
+                    continue
+                for fr in direct_calls(sg, {"free"}):
+                    tot, det = o3_wipe_extent(sg, fr)
+                    done = True
+                    n += 1
+                    cons = construct(sg)
+                    if tot == wl:
+                        rep.ok("C17.R5", cons, sg.loc(fr), "-O3 IR keeps %d volatile zero bytes before free() (%s; %s inlined here)" % (tot, "; ".join(det), name), cfg=cn)
+                    elif tot is None:
+                        rep.inconclusive("C17.R5", cons, sg.loc(fr), "optimised wipe shape not recognised: %s" % "; ".join(det), cfg=cn)
+                    else:
+                        rep.violation("C17.R5", cons, sg.loc(fr), "-O3 IR zeroes %d bytes before free(), expected %d (%s inlined here)" % (tot, wl, name), cfg=cn)
+            if not done:
+                rep.inconclusive("C17.R5", "src/%s.c:%s" % (unit, name), "", "function not present in the optimised IR and no caller holds its free()", cfg=cn)
     o0 = ctx.prog(cfg)
     for f in sorted(prog.defined(), key=lambda x: x.key):
         # releases through a helper (counted; the helper's own loop has a run-time length)
